@@ -16,6 +16,7 @@ import (
 	"fmt"
 	"net"
 	"os"
+	"path/filepath"
 	"strconv"
 	"strings"
 	"sync/atomic"
@@ -181,17 +182,26 @@ func watchdog() time.Duration {
 	return 2 * time.Second
 }
 
-// pregrow makes a bolt file (and its mmap) large and leaves the pages free, using only the store API. bbolt
-// must wait for every open read transaction before it can enlarge its mmap, so without this a Put issued
-// while a cursor is open may block (that stall is exercised on purpose by "init … raw", see C12).
-func pregrow(ctx context.Context, s chain.Store) {
-	const r = uint64(1) << 40
-	if err := s.Put(ctx, &common.Beacon{Round: r, Signature: make([]byte, 1<<20), PreviousSig: []byte{1}}); err != nil {
+// pregrown opens a bolt store whose file has been extended (sparse) to 64 MiB beforehand: bbolt maps the whole file,
+// so appends made while a cursor's read transaction is open do not have to wait for an mmap resize (bbolt can only
+// enlarge its mapping when no read transaction is open — that stall is exercised on purpose by "init … raw", see C12).
+// Only the file is touched; the store is created and opened by boltdb.NewBoltStore as always.
+func pregrown(ctx context.Context, dir string) chain.Store {
+	s, err := boltdb.NewBoltStore(ctx, quietLogger(), dir)
+	if err != nil {
 		panic(err)
 	}
-	if err := s.Del(ctx, r); err != nil {
+	if err := s.Close(); err != nil {
 		panic(err)
 	}
+	if err := os.Truncate(filepath.Join(dir, boltdb.BoltFileName), 64<<20); err != nil {
+		panic(err)
+	}
+	s, err = boltdb.NewBoltStore(ctx, quietLogger(), dir)
+	if err != nil {
+		panic(err)
+	}
+	return s
 }
 
 func newStreamSUT(backend string, chained bool, n int, raw bool) *streamSUT {
@@ -202,28 +212,26 @@ func newStreamSUT(backend string, chained bool, n int, raw bool) *streamSUT {
 	}
 	c.ctx = ctx
 	switch {
-	case backend == "trimmed":
+	case backend == "trimmed" || backend == "bolt":
 		c.dir = tmpDir()
-		s, err := boltdb.NewBoltStore(ctx, quietLogger(), c.dir)
-		if err != nil {
-			panic(err)
+		bctx := ctx
+		if backend == "bolt" {
+			bctx = boltdb.IsATest(ctx)
 		}
-		c.base = s
-	case backend == "bolt":
-		c.dir = tmpDir()
-		s, err := boltdb.NewBoltStore(boltdb.IsATest(ctx), quietLogger(), c.dir)
-		if err != nil {
-			panic(err)
+		if raw {
+			s, err := boltdb.NewBoltStore(bctx, quietLogger(), c.dir)
+			if err != nil {
+				panic(err)
+			}
+			c.base = s
+		} else {
+			c.base = pregrown(bctx, c.dir)
 		}
-		c.base = s
 	case strings.HasPrefix(backend, "mem"):
 		k, _ := strconv.Atoi(backend[3:])
 		c.base = memdb.NewStore(k)
 	default:
 		panic("unknown backend " + backend)
-	}
-	if c.dir != "" && !raw {
-		pregrow(ctx, c.base)
 	}
 	if err := c.base.Put(ctx, chain.GenesisBeacon(streamSig(0))); err != nil {
 		panic(err)
@@ -395,13 +403,27 @@ func (s *sStream) scanstep() string {
 	return "bad-state"
 }
 
+// park waits until no callback of this stream is running free: each one has finished or sits in a Send whose event the
+// script has not taken yet. A callback whose Send failed calls RemoveCallback(id) on its own goroutine; an op that made
+// a Send fail must not return before that has happened, or the removal would race with the script's next steps.
+func (s *sStream) park() {
+	deadline := time.Now().Add(watchdog())
+	for time.Now().Before(deadline) {
+		if atomic.LoadInt32(&s.inflight) == 0 || len(s.ev) > 0 {
+			return
+		}
+		time.Sleep(20 * time.Microsecond)
+	}
+}
+
 func (s *sStream) quiescent() bool {
 	if s.returned || !s.live {
 		return len(s.ev) == 0
 	}
 	chk := func() bool {
+		// once the close signal has reached the callback, SyncChain is on its way out: its "returned" event will come
 		return len(s.ev) == 0 && s.jobs.Load().Len() == 0 && atomic.LoadInt32(&s.inflight) == 0 &&
-			atomic.LoadInt32(&s.entered) >= atomic.LoadInt32(&s.expected)
+			atomic.LoadInt32(&s.entered) >= atomic.LoadInt32(&s.expected) && atomic.LoadInt32(&s.closed) == 0
 	}
 	if !chk() {
 		return false
@@ -434,6 +456,7 @@ func (s *sStream) deliver(rel error) string {
 						case e2 := <-s.ev:
 							if e2.kind == "returned" {
 								s.returned = true
+								s.park()
 								return showSend(e) + " returned " + classifyStreamErr(e2.err)
 							}
 							if e2.kind == "send" {
@@ -453,7 +476,7 @@ func (s *sStream) deliver(rel error) string {
 			return "none"
 		}
 		if time.Now().After(deadline) {
-			if len(s.ev) == 0 && s.jobs.Load().Len() == 0 && atomic.LoadInt32(&s.inflight) == 0 {
+			if len(s.ev) == 0 && s.jobs.Load().Len() == 0 && atomic.LoadInt32(&s.inflight) == 0 && atomic.LoadInt32(&s.closed) == 0 {
 				return "none" // fewer callbacks than the hint expected: nothing is coming
 			}
 			return "stuck"
@@ -663,6 +686,7 @@ func streamEngine(args []string, in *bufio.Scanner, out *bufio.Writer) {
 							case e := <-s.ev:
 								if e.kind == "returned" {
 									s.returned = true
+									s.park()
 									return "returned " + classifyStreamErr(e.err)
 								}
 								if e.kind == "send" {
@@ -687,6 +711,7 @@ func streamEngine(args []string, in *bufio.Scanner, out *bufio.Writer) {
 						switch e.kind {
 						case "returned":
 							s.returned = true
+							s.park()
 							return "returned " + classifyStreamErr(e.err)
 						case "registered":
 						default:
